@@ -722,9 +722,22 @@ def oracle_C16(rs, n, ctx):
         c = float(rs.choice([0.001, 1000.0, 2.0]))
         E3 = eik(nd)(v.copy(), tuple(x * c for x in d), [x * c for x in o])
         srep = dict(rep, sigma=sigma, c=c)
+        # sigma is passed in every representation users have: float, list, and a float64 array that is reused
+        how = str(rs.choice(["asis", "array", "array"]))
+        if how == "array":
+            sigma = np.array(np.full(nd, sigma) if np.isscalar(sigma) else sigma, dtype=np.float64)
+        sigma_before = copy.deepcopy(sigma)
         try:
             E2.smooth(sigma)
-            E3.smooth(np.asarray(sigma) * c if not np.isscalar(sigma) else sigma * c)
+            if not np.array_equal(np.asarray(sigma), np.asarray(sigma_before)):
+                R.violate("C16:smooth-argument-modified", f"smooth modified its sigma argument: {np.asarray(sigma_before).tolist()} -> {np.asarray(sigma).tolist()}", dict(srep, sigma_repr=how))
+                sigma = copy.deepcopy(sigma_before)
+            # a second model smoothed with the very same sigma object must get the same result (sequence of calls)
+            E2b = eik(nd)(v.copy(), d, o)
+            E2b.smooth(sigma)
+            if not np.array_equal(E2b.grid, E2.grid):
+                R.violate("C16:smooth-history", "smoothing a second model with the same sigma object gives a different result", dict(srep, sigma_repr=how))
+            E3.smooth(np.asarray(sigma_before) * c if not np.isscalar(sigma_before) else sigma_before * c)
         except Exception as ex:  # noqa: BLE001
             R.violate("C16:smooth-raises", f"{type(ex).__name__}: {ex}", srep)
             continue
